@@ -133,41 +133,83 @@ def evaluator_terms(ctx):
     Cs = [NC.op("C%d" % c) for c in range(3)]
     k2 = NC.scalar("k") * NC.scalar("k")
 
+    role = {}   # closure variable of the maker function -> what it is, by provenance (not by what it is called)
+    cur = {}    # the closure being evaluated: its argument name
+
+    def closure_roles(outer):
+        p = arg_names(outer)
+        if len(p) != 4:
+            raise AnalysisError("%s: signature changed" % outer.name)
+        FI, D, DT = p[1], p[2], p[3]
+        role.clear()
+        role[FI] = "FMM"
+        inner = {id(y) for x in ast.walk(outer) if isinstance(x, ast.FunctionDef) and x is not outer for y in ast.walk(x)}
+        for st in ast.walk(outer):
+            if id(st) in inner or not isinstance(st, ast.Assign) or len(st.targets) != 1:
+                continue
+            t, txt = st.targets[0], unparse(st.value).replace(" ", "")
+            if isinstance(t, ast.Name):
+                if txt.startswith(D + ".map_to_points(") and "return_transpose" not in txt:
+                    role[t.id] = "S"
+                elif txt.startswith(DT + ".map_to_points(") and "return_transpose=True" in txt:
+                    role[t.id] = "T"
+                elif ".singular_part." in txt and "weak_form()" in txt:
+                    role[t.id] = "Sing"
+                elif txt.startswith("get_normals(%s," % D):
+                    role[t.id] = "Ns"
+                elif txt.startswith("get_normals(%s," % DT):
+                    role[t.id] = "Nt"
+            elif isinstance(t, ast.Tuple) and len(t.elts) == 2 and all(isinstance(e, ast.Name) for e in t.elts):
+                a, b = (e.id for e in t.elts)
+                if txt.startswith("compute_p1_curl_transformation(%s," % D):
+                    role[a], role[b] = "C", "C^T(source)"
+                elif txt.startswith("compute_p1_curl_transformation(%s," % DT):
+                    role.setdefault(a, "C(target)")
+                    role[b] = "Ct"
+                elif isinstance(st.value, ast.Tuple) and len(st.value.elts) == 2 and all(isinstance(e, ast.Name) for e in st.value.elts):
+                    # target transforms taken from the source side (legal only for equal spaces: rule FMM-CURL-REUSE)
+                    if role.get(st.value.elts[1].id) == "C^T(source)":
+                        role.setdefault(b, "Ct")
+
     def hook(ev, n):
         txt = unparse(n).replace(" ", "")
+        is_fmm = lambda c: isinstance(c, ast.Call) and isinstance(c.func, ast.Attribute) and c.func.attr == "evaluate" and isinstance(c.func.value, ast.Name) and role.get(c.func.value.id) == "FMM"
         # fmm_interface.evaluate(arg)[:, c]
-        if isinstance(n, ast.Subscript) and isinstance(n.value, ast.Call) and unparse(n.value.func) == "fmm_interface.evaluate" and isinstance(n.slice, ast.Tuple):
+        if isinstance(n, ast.Subscript) and is_fmm(n.value) and isinstance(n.slice, ast.Tuple):
             c = n.slice.elts[1]
             if isinstance(c, ast.Constant):
                 return Ec[c.value] * ev.ev(n.value.args[0])
         # np.sum(fmm_interface.evaluate(arg)[:, 1:] * target_normals, axis=1)
         if isinstance(n, ast.Call) and unparse(n.func).endswith("sum") and n.args and isinstance(n.args[0], ast.BinOp) and isinstance(n.args[0].op, ast.Mult):
             l, rr = n.args[0].left, n.args[0].right
-            if (isinstance(l, ast.Subscript) and isinstance(l.value, ast.Call) and unparse(l.value.func) == "fmm_interface.evaluate" and unparse(l.slice).replace(" ", "") == "(slice(None,None,None),slice(1,None,None))"
-                    or (isinstance(l, ast.Subscript) and unparse(l.slice).replace(" ", "") in (":,1:", "(:,1:)"))) and unparse(rr) == "target_normals" and any(k.arg == "axis" and unparse(k.value) == "1" for k in n.keywords):
+            if (isinstance(l, ast.Subscript) and is_fmm(l.value) and unparse(l.slice).replace(" ", "") in ("(slice(None,None,None),slice(1,None,None))", ":,1:", "(:,1:)")) \
+                    and isinstance(rr, ast.Name) and role.get(rr.id) == "Nt" and any(k.arg == "axis" and unparse(k.value) == "1" for k in n.keywords):
                 arg = ev.ev(l.value.args[0])
                 tot = NC()
                 for i in range(3):
                     tot = tot + Nt[i] * Ec[1 + i] * arg
                 return tot
         if isinstance(n, ast.Subscript) and isinstance(n.value, ast.Name) and isinstance(n.slice, ast.Tuple) and isinstance(n.slice.elts[1], ast.Constant) and isinstance(n.slice.elts[0], ast.Slice):
-            if n.value.id == "target_normals":
+            if role.get(n.value.id) == "Nt":
                 return Nt[n.slice.elts[1].value]
-            if n.value.id == "source_normals":
+            if role.get(n.value.id) == "Ns":
                 return Ns[n.slice.elts[1].value]
         if isinstance(n, ast.Subscript) and isinstance(n.value, ast.Name) and isinstance(n.slice, ast.Constant):
-            if n.value.id == "target_curls_trans":
+            if role.get(n.value.id) == "Ct":
                 return Ct[n.slice.value]
-            if n.value.id == "source_curls":
+            if role.get(n.value.id) == "C":
                 return Cs[n.slice.value]
         if isinstance(n, ast.Name):
-            return {"target_map": T, "source_map": S, "singular_part": Sing, "x": x, "wavenumber": NC.scalar("k")}.get(n.id)
+            if n.id == cur.get("x"):
+                return x
+            return {"T": T, "S": S, "Sing": Sing}.get(role.get(n.id)) or {"wavenumber": NC.scalar("k")}.get(n.id)
         if txt in ("operator_descriptor.options[0]+1j*operator_descriptor.options[1]", "operator_descriptor.options[0]"):
             return NC.scalar("k")
         return None
 
     def closures(fname):
         fn = m.fn(fname)
+        closure_roles(fn)
         return {n.name: n for n in ast.walk(fn) if isinstance(n, ast.FunctionDef) and n is not fn}, fn
 
     cl, fn = closures("make_default_scalar")
@@ -180,6 +222,7 @@ def evaluator_terms(ctx):
         if name not in cl:
             raise AnalysisError("make_default_scalar lost closure %s" % name)
         try:
+            cur["x"] = arg_names(cl[name])[0]
             got = _nc_function(cl[name], {}, hook)
             ok, msg = got == w, "%s computes %r, expected %r" % (name, got, w)
         except AnalysisError as e:
@@ -200,6 +243,7 @@ def evaluator_terms(ctx):
         if name not in cl:
             raise AnalysisError("make_scalar_hypersingular lost closure %s" % name)
         try:
+            cur["x"] = arg_names(cl[name])[0]
             got = _nc_function(cl[name], {}, hook)
             ok, msg = got == w, "%s computes %r, expected %r" % (name, got, w)
         except AnalysisError as e:
